@@ -89,3 +89,31 @@ fn c10_limited_vec_growth_charged() {
     }
     core::mem::forget(v);
 }
+
+/// C10: the *second* doubling (capacity 16 -> 32, 16-byte elements): the charge is the number of
+/// elements actually reserved (16 * 16 = 256 bytes), not the minimum capacity.
+// @verif props=C10,C15 fns=LimitedVec::push
+#[kani::proof]
+#[kani::unwind(18)]
+fn c10_limited_vec_second_growth_charged() {
+    let max: usize = kani::any();
+    let limiter = SharedMemoryLimiter::new(max);
+    let mut v = LimitedVec::<[u8; 16]>::new(limiter.clone());
+    let init: [[u8; 16]; 16] = kani::any();
+    v.vec = Vec::from(init);
+    kani::assume(v.vec.capacity() == 16);
+    let charged_before = limiter.increase_usage(16 * 16).is_ok();
+    let x: [u8; 16] = kani::any();
+    let r = v.push(x);
+    if r.is_ok() {
+        assert!(charged_before);
+        assert!(v.len() == 17 && v.vec.capacity() == 32);
+        assert!(max >= 512);
+        kani::cover!(max == 512);
+    } else {
+        assert!(max < 512);
+        assert!(v.len() == 16 && v.vec.capacity() == 16);
+        kani::cover!(max == 511);
+    }
+    core::mem::forget(v);
+}
